@@ -698,3 +698,152 @@ example (P : Prims) (O : OutPrims) (fs : FS) (env : Env) :
       .err ⟨5, true, .typeErr, .byCause⟩ :=
   (if_chain_first_cond_err_source P O {} fs 1 5 env c10Poison Ws.std [.text [97]] [⟨some [120], Ws.std, [.text [98]]⟩] Ws.std
     (.range (.lit (.int .int 1)) (.lit (.str [97]))) .typeErr (by decide) (by decide) rfl (by decide) (by decide) rfl).1
+
+/-! ## `unless` chains: `{% unless c0 %}A0{% else %}E1{% else %}E2 … {% endunless %}`
+
+What `ifTagCompiler(false)` and the grammar (`AddBlock("unless").Clause("else")`) do: the condition of the `unless` tag is negated
+(`e.Not`), an `unless` block admits `else` clauses only — any number of them, each compiled to the constant `true` — and an
+`elsif` tag inside `unless` is rejected by the block parser. So the chain is: `A0` when `c0` evaluates falsy; otherwise the FIRST
+`else` clause (later `else` clauses are never rendered); otherwise nothing (`unless_source`); the error of `c0`, at the line of
+the `unless` tag, when its evaluation fails. `unlessChainSrc c0 w0 A0 rest wE` (Proofs/SrcCondErr.lean) is the source; in the
+first three theorems every clause of `rest` is an `else` clause (`cond = none`). -/
+
+/-- **C10 (`unless`, condition falsy), from source bytes.** If `c0` evaluates to nil or false, the block — whatever `else` clauses
+    follow, as long as they compile — succeeds exactly when `A0` does (as a template of its own, where it stands), with exactly that
+    output. -/
+theorem unless_chain_body_source (P : Prims) (O : OutPrims) (cfg : Cfg) (fs : FS) (fuel : Nat) (line : Nat) (env : Env)
+    (c0 : Bytes) (w0 : Ws) (A0 : List Item) (rest : List Clause) (wE : Ws) (e0 : Expr) (v0 : GoVal)
+    (hg : GoodDelims (Delims.ofList cfg.delims)) (hc : Clean (Delims.ofList cfg.delims) (unlessChainSrc c0 w0 A0 rest wE))
+    (hcA : Clean (Delims.ofList cfg.delims) A0)
+    (hp : parseExprSource c0 = .ok e0) (hA : Compiles (Delims.ofList cfg.delims) A0 0)
+    (hrest : ∀ c ∈ rest, c.Good (Delims.ofList cfg.delims)) (helse : ∀ c ∈ rest, c.cond = none)
+    (hv : evaluate P env e0 = .ok v0) (hf : v0.test = false) (out : Bytes) :
+    run P O cfg fs fuel (spell (Delims.ofList cfg.delims) (unlessChainSrc c0 w0 A0 rest wE)) line env = .ok out ↔
+    run P O cfg fs fuel (spell (Delims.ofList cfg.delims) A0)
+      (line + countNL ((tg nmUnless c0 w0).spell (Delims.ofList cfg.delims))) env = .ok out := by
+  rw [unlessChainSrc_eq_blockSrcK] at hc ⊢
+  rw [run_chainK_shape P O cfg fs fuel line env nmUnless (.inr rfl) c0 w0 A0 rest wE e0 hg hc hp hA hrest (fun _ => helse),
+    run_spell P O cfg fs fuel A0 _ env hg hcA, nodesOf_spec hA]
+  show _ ↔ runRoot P O cfg fs fuel (nodesOf (Delims.ofList cfg.delims) A0 _) env = .ok out
+  apply runRoot_wrapped_body_ok P O cfg fs fuel _ _ env ⟨line, true⟩
+  rw [renderNode]
+  have hne : (nmUnless == nmIf) = false := by decide
+  have hcond : condRes (mkCtx P O cfg fs fuel).P (⟨env, {}⟩ : RS).env (.notExpr line e0) = .ok true := by
+    show condRes P env (.notExpr line e0) = .ok true
+    simp only [condRes, hv, hf, Bool.not_false]
+  simp only [hne, Bool.false_eq_true, if_false, wrapAt, renderBranches_cons, hcond]
+  rfl
+
+/-- **C10 (`unless`, condition truthy: the first `else`), from source bytes.** If `c0` evaluates truthy and the block has at least
+    one `else` clause, it succeeds exactly when the body of the FIRST `else` clause does (as a template of its own, at the line where
+    it stands), with exactly that output; the `else` clauses after it are not rendered. -/
+theorem unless_chain_else_source (P : Prims) (O : OutPrims) (cfg : Cfg) (fs : FS) (fuel : Nat) (line : Nat) (env : Env)
+    (c0 : Bytes) (w0 : Ws) (A0 : List Item) (first : Clause) (more : List Clause) (wE : Ws) (e0 : Expr) (v0 : GoVal)
+    (hg : GoodDelims (Delims.ofList cfg.delims))
+    (hc : Clean (Delims.ofList cfg.delims) (unlessChainSrc c0 w0 A0 (first :: more) wE))
+    (hcF : Clean (Delims.ofList cfg.delims) first.body)
+    (hp : parseExprSource c0 = .ok e0) (hA : Compiles (Delims.ofList cfg.delims) A0 0)
+    (hrest : ∀ c ∈ first :: more, c.Good (Delims.ofList cfg.delims)) (helse : ∀ c ∈ first :: more, c.cond = none)
+    (hv : evaluate P env e0 = .ok v0) (ht : v0.test = true) (out : Bytes) :
+    run P O cfg fs fuel (spell (Delims.ofList cfg.delims) (unlessChainSrc c0 w0 A0 (first :: more) wE)) line env = .ok out ↔
+    run P O cfg fs fuel (spell (Delims.ofList cfg.delims) first.body)
+      (line + countNL (spell (Delims.ofList cfg.delims) (tg nmUnless c0 w0 :: (A0 ++ [first.tag])))) env = .ok out := by
+  rw [unlessChainSrc_eq_blockSrcK] at hc ⊢
+  have hline : line + countNL (spell (Delims.ofList cfg.delims) (tg nmUnless c0 w0 :: (A0 ++ [first.tag]))) =
+      line + countNL ((tg nmUnless c0 w0).spell (Delims.ofList cfg.delims)) + countNL (spell (Delims.ofList cfg.delims) A0) +
+        countNL ((first.tagK nmElsif).spell (Delims.ofList cfg.delims)) := by
+    have h0 : countNL (spell (Delims.ofList cfg.delims) []) = 0 := rfl
+    simp only [spell_cons, spell_append, countNL_append, h0, Clause.tagK_elsif]
+    omega
+  rw [run_chainK_shape P O cfg fs fuel line env nmUnless (.inr rfl) c0 w0 A0 (first :: more) wE e0 hg hc hp hA hrest (fun _ => helse),
+    hline, run_spell P O cfg fs fuel first.body _ env hg hcF, nodesOf_spec (hrest first (List.mem_cons_self ..)).2]
+  show _ ↔ runRoot P O cfg fs fuel (nodesOf (Delims.ofList cfg.delims) first.body _) env = .ok out
+  apply runRoot_wrapped_body_ok P O cfg fs fuel _ _ env ⟨line, true⟩
+  rw [renderNode]
+  have hne : (nmUnless == nmIf) = false := by decide
+  have hcond : condRes (mkCtx P O cfg fs fuel).P (⟨env, {}⟩ : RS).env (.notExpr line e0) = .ok false := by
+    show condRes P env (.notExpr line e0) = .ok false
+    simp only [condRes, hv, ht, Bool.not_true]
+  have htest : ∀ l, first.testAt l = .always := fun l => by
+    simp only [Clause.testAt, helse first (List.mem_cons_self ..)]
+  have hcondF : condRes (mkCtx P O cfg fs fuel).P (⟨env, {}⟩ : RS).env .always = .ok true := rfl
+  simp only [hne, Bool.false_eq_true, if_false, wrapAt, ifBrs, htest, renderBranches_cons, hcond, hcondF]
+  rfl
+
+/-- **C10 (`unless`, the condition fails), from source bytes.** If `c0` is an expression whose evaluation fails with cause `x`,
+    the block fails with `x` at the line of the `unless` tag, and nothing has been written. -/
+theorem unless_chain_cond_err_source (P : Prims) (O : OutPrims) (cfg : Cfg) (fs : FS) (fuel : Nat) (line : Nat) (env : Env)
+    (c0 : Bytes) (w0 : Ws) (A0 : List Item) (rest : List Clause) (wE : Ws) (e0 : Expr) (x : Cause)
+    (hg : GoodDelims (Delims.ofList cfg.delims)) (hc : Clean (Delims.ofList cfg.delims) (unlessChainSrc c0 w0 A0 rest wE))
+    (hp : parseExprSource c0 = .ok e0) (hA : Compiles (Delims.ofList cfg.delims) A0 0)
+    (hrest : ∀ c ∈ rest, c.Good (Delims.ofList cfg.delims)) (helse : ∀ c ∈ rest, c.cond = none)
+    (hv : evaluate P env e0 = .err x) :
+    run P O cfg fs fuel (spell (Delims.ofList cfg.delims) (unlessChainSrc c0 w0 A0 rest wE)) line env = .err ⟨line, true, x, .byCause⟩ ∧
+    written P O cfg fs fuel (spell (Delims.ofList cfg.delims) (unlessChainSrc c0 w0 A0 rest wE)) line env = [] := by
+  rw [unlessChainSrc_eq_blockSrcK] at hc ⊢
+  exact chainK_first_cond_err P O cfg fs fuel line env nmUnless (.inr rfl) c0 w0 A0 rest wE e0 x hg hc hp hA hrest
+    (fun _ => helse) hv
+
+/-- **C10 (`elsif` inside `unless` is rejected), from source bytes.** `{% unless c0 %}A0{% else %}… {% elsif t %}…{% endunless %}`:
+    whatever `c0` and `t` are (expressions or not) and whatever clauses follow, as long as the bodies are self-contained templates,
+    the template is not accepted: the block parser fails at the line of the first `elsif` tag with the cause-less error
+    `elsif not inside if` (`Msg.notInside`), for every value layer and environment. -/
+theorem unless_elsif_rejected_source (P : Prims) (O : OutPrims) (cfg : Cfg) (fs : FS) (fuel : Nat) (line : Nat) (env : Env)
+    (c0 : Bytes) (w0 : Ws) (A0 : List Item) (pre : List Clause) (sel : Clause) (post : List Clause) (wE : Ws) (t : Bytes)
+    (hg : GoodDelims (Delims.ofList cfg.delims))
+    (hc : Clean (Delims.ofList cfg.delims) (unlessChainSrc c0 w0 A0 (pre ++ sel :: post) wE))
+    (hA : Compiles (Delims.ofList cfg.delims) A0 0)
+    (hbodies : ∀ c ∈ pre ++ sel :: post, Compiles (Delims.ofList cfg.delims) c.body 0)
+    (helse : ∀ c ∈ pre, c.cond = none) (hsel : sel.cond = some t) :
+    run P O cfg fs fuel (spell (Delims.ofList cfg.delims) (unlessChainSrc c0 w0 A0 (pre ++ sel :: post) wE)) line env =
+      .err ⟨line + countNL (spell (Delims.ofList cfg.delims) (tg nmUnless c0 w0 :: (A0 ++ clauseItems pre))), true, .none, .notInside⟩ := by
+  rw [unlessChainSrc_eq_blockSrcK] at hc ⊢
+  have hline : line + countNL (spell (Delims.ofList cfg.delims) (tg nmUnless c0 w0 :: (A0 ++ clauseItems pre))) =
+      line + countNL ((tg nmUnless c0 w0).spell (Delims.ofList cfg.delims)) + countNL (spell (Delims.ofList cfg.delims) A0) +
+        countNL (spell (Delims.ofList cfg.delims) (clauseItemsK nmElsif pre)) := by
+    rw [clauseItemsK_elsif]
+    simp only [spell_cons, spell_append, countNL_append]
+    omega
+  rw [run_spell P O cfg fs fuel _ line env hg hc,
+    unlessChain_elsif_compile _ line c0 w0 A0 pre sel post wE t hA hbodies helse hsel, hline]
+  rfl
+
+/-! ### Non-vacuity of the `unless` chain theorems -/
+
+/-- `{% unless nil %}a{{ y }}{% else %}b{% else %}c{% endunless %}` renders what `a{{ y }}` renders -/
+example (P : Prims) (O : OutPrims) (fs : FS) (env : Env) (out : Bytes) :
+    run P O {} fs 1 (spell Delims.default (unlessChainSrc [110, 105, 108] Ws.std c10A
+      [⟨none, Ws.std, [.text [98]]⟩, ⟨none, Ws.std, [.text [99]]⟩] Ws.std)) 1 env = .ok out ↔
+    run P O {} fs 1 (spell Delims.default c10A) 1 env = .ok out :=
+  unless_chain_body_source P O {} fs 1 1 env [110, 105, 108] Ws.std c10A [⟨none, Ws.std, [.text [98]]⟩, ⟨none, Ws.std, [.text [99]]⟩]
+    Ws.std (.lit .nil) .nil (by decide) (by decide) (by decide) rfl (by decide) (by decide) (by decide) rfl rfl out
+
+example : spell Delims.default (unlessChainSrc [48] Ws.std [.text [98]]
+      [⟨none, Ws.std, c10A⟩, ⟨none, Ws.std, [.text [99]]⟩] Ws.std) =
+    [123, 37, 32, 117, 110, 108, 101, 115, 115, 32, 48, 32, 37, 125, 98, 123, 37, 32, 101, 108, 115, 101, 32, 37, 125,
+     97, 123, 123, 32, 121, 32, 125, 125, 123, 37, 32, 101, 108, 115, 101, 32, 37, 125, 99,
+     123, 37, 32, 101, 110, 100, 117, 110, 108, 101, 115, 115, 32, 37, 125] := by decide
+
+/-- `{% unless 0 %}b{% else %}a{{ y }}{% else %}c{% endunless %}` renders what `a{{ y }}` renders: 0 is truthy, the first `else` is
+    taken, the second never -/
+example (P : Prims) (O : OutPrims) (fs : FS) (env : Env) (out : Bytes) :
+    run P O {} fs 1 (spell Delims.default (unlessChainSrc [48] Ws.std [.text [98]]
+      [⟨none, Ws.std, c10A⟩, ⟨none, Ws.std, [.text [99]]⟩] Ws.std)) 1 env = .ok out ↔
+    run P O {} fs 1 (spell Delims.default c10A) 1 env = .ok out :=
+  unless_chain_else_source P O {} fs 1 1 env [48] Ws.std [.text [98]] ⟨none, Ws.std, c10A⟩ [⟨none, Ws.std, [.text [99]]⟩]
+    Ws.std (.lit (.int .int 0)) (.int .int 0) (by decide) (by decide) (by decide) rfl (by decide) (by decide) (by decide) rfl rfl out
+
+/-- `{% unless (1.."a") %}a{% else %}b{% endunless %}` started at line 3: the type error at line 3 -/
+example (P : Prims) (O : OutPrims) (fs : FS) (env : Env) :
+    run P O {} fs 1 (spell Delims.default (unlessChainSrc c10Poison Ws.std [.text [97]] [⟨none, Ws.std, [.text [98]]⟩] Ws.std)) 3 env =
+      .err ⟨3, true, .typeErr, .byCause⟩ :=
+  (unless_chain_cond_err_source P O {} fs 1 3 env c10Poison Ws.std [.text [97]] [⟨none, Ws.std, [.text [98]]⟩] Ws.std
+    (.range (.lit (.int .int 1)) (.lit (.str [97]))) .typeErr (by decide) (by decide) rfl (by decide) (by decide) (by decide) rfl).1
+
+/-- `{% unless x %}a{% else %}b⏎{% elsif y %}c{% endunless %}`: not accepted, `elsif not inside if` at line 2 -/
+example (P : Prims) (O : OutPrims) (fs : FS) (env : Env) :
+    run P O {} fs 1 (spell Delims.default (unlessChainSrc [120] Ws.std [.text [97]]
+      ([⟨none, Ws.std, [.text [98, 10]]⟩] ++ (⟨some [121], Ws.std, [.text [99]]⟩ : Clause) :: []) Ws.std)) 1 env =
+      .err ⟨2, true, .none, .notInside⟩ :=
+  unless_elsif_rejected_source P O {} fs 1 1 env [120] Ws.std [.text [97]] [⟨none, Ws.std, [.text [98, 10]]⟩]
+    ⟨some [121], Ws.std, [.text [99]]⟩ [] Ws.std [121] (by decide) (by decide) (by decide) (by decide) (by decide) rfl
